@@ -364,11 +364,11 @@ func c16(ctx *Ctx) (*Outcome, error) {
 	}
 	o := &Outcome{Level: "exploration", Violations: viols}
 	o.Coverage = map[string]any{
-		"evaluations":         pairsChecked,
-		"distinct_nontrivial": len(sigs),
-		"rule":                "random schemas over the full feature space x a random base option set x its six one-option neighbours (+-only-models, --tags A vs B, +-capitalization, +-struct-name-from-title, +-schema-root-type, +-extra-imports); the two real CLI outputs are compared at go/ast level: only-models => identical type declarations (printed with comments), no func, no var, and the file still type-checks (no stray import); tags => identical after erasing tags, every tag = requested keys in order with one common value, values unchanged; naming options => identical multiset of declarations after masking package-local identifiers and interpreted strings (struct tags kept); extra-imports => with-flag declarations minus *YAML methods and the yaml import equal the without-flag declarations; distinct_nontrivial = distinct (option kind, schema signature) pairs",
-		"samples":             samples,
-		"pairs_by_option":     byKind,
+		"evaluations":           pairsChecked,
+		"distinct_nontrivial":   len(sigs),
+		"rule":                  "random schemas over the full feature space x a random base option set x its six one-option neighbours (+-only-models, --tags A vs B, +-capitalization, +-struct-name-from-title, +-schema-root-type, +-extra-imports); the two real CLI outputs are compared at go/ast level: only-models => identical type declarations (printed with comments), no func, no var, and the file still type-checks (no stray import); tags => identical after erasing tags, every tag = requested keys in order with one common value, values unchanged; naming options => identical multiset of declarations after masking package-local identifiers and interpreted strings (struct tags kept); extra-imports => with-flag declarations minus *YAML methods and the yaml import equal the without-flag declarations; distinct_nontrivial = distinct (option kind, schema signature) pairs",
+		"samples":               samples,
+		"pairs_by_option":       byKind,
 		"pairs_skipped_refused": skipped,
 	}
 	if len(samples) == 0 {
